@@ -40,7 +40,7 @@ class NPProxy:
     def full(self, shape, fill, dtype=None, **k):
         if isinstance(fill, float) and fill != fill:
             out = _np.empty(shape, dtype=object)
-            out[...] = None  # a NaN-filled scratch array: every cell must be overwritten before use
+            out[...] = float("nan")  # NaN cells stay Python NaNs (np.isnan on the array answers True for them); a NaN that reaches an obligation cannot be turned into a term and stops the harness
             return out.view(SArr)
         return self._o(_np.full(shape, fill, dtype=object))
 
